@@ -308,6 +308,8 @@ class NamedQubit:
                     f"Cannot slice parameter {alias_from.name} of non-register kind {alias_from.kind}."
                 )
         else:
+            if alias_index != int(alias_index):
+                raise JaqalError(f"Qubit index {alias_index} is not an integer.")
             try:
                 from_size = int(alias_from.size)
             except JaqalError:
